@@ -85,8 +85,8 @@ func TestVerifC29(t *testing.T) {
 	hc := &http.Client{Timeout: 60 * time.Second}
 	base := fmt.Sprintf("http://127.0.0.1:%d", port)
 	t0 := time.Date(2024, 3, 1, 10, 0, 0, 0, time.UTC)
-	layouts := r.N(2, 12)
-	queries := r.N(150, 2500)
+	layouts := r.N(4, 12)
+	queries := r.N(600, 2500)
 	for li := 0; li < layouts; li++ {
 		os.RemoveAll(filepath.Join(dir, "rec")) //nolint:errcheck
 		// ---- a recording history: sessions (publisher restarts) with gaps or back to back
